@@ -181,3 +181,15 @@ func HUrlLong(sch int, kind int, L int) {
 	}
 	vCover("checked")
 }
+
+// HDecodeBig: references whose value is near the 0x1000FF cap (prefix fixes the high digits, n free bytes follow).
+func HDecodeBig(n int, which int) {
+	pre := [...]string{"&#x10", "&#x1", "&#X10F", "&#11", "&#10", "&#1048", "&#x0010"}[which]
+	s := pre + vNondetString(n)
+	v, c := htmlDecodeByteAt(s)
+	sv, sc := specDecode(s)
+	vAssert(c == sc, "consumed count equals the reference decoder's")
+	vAssert(v == sv, "decoded value equals the reference decoder's")
+	vAssert(v <= 0x1000FF, "value capped at 0x1000FF")
+	vCover("checked")
+}
